@@ -1103,6 +1103,275 @@ def check_C12(work):
     return finish("C12", out, t0, "model_checking", cov, BASE_ASSUME + ["SHA-256 -> constants derivation is checked with Python hashlib, not in TLA+"])
 
 
+def check_C04(work):
+    t0 = time.time()
+    out = Outcome("C04")
+    k = "k"
+    jobs = []
+    plainf = ("plain", plain("W", 10000000), [root("W", "plain", "w")], None)
+    stackf = ("stack", stack(plain("W", 10000000), [], "none"), [root("W", "plain", "w")], None)
+    ops2 = {"S": S(k), "P": P(k), "G": G(k), "T": T(k)}
+    progs2 = []
+    # all pairs of 1-2 operation programs with at least one writer (quick: a seeded selection)
+    singles = [[o] for o in "SPGT"] + [[a, b] for a in "SPGT" for b in "SPGT"]
+    for a in singles:
+        for b in singles:
+            if not any(x in "SP" for x in a + b) or not any(x in "GT" for x in a + b):
+                continue
+            if len(a) + len(b) > Q(3, 4):
+                continue
+            progs2.append((a, b))
+    rng = random.Random(seed())
+    if TIER == "quick":
+        rng.shuffle(progs2)
+        progs2 = progs2[:22]
+    # histories in which a lost update / overwrite by put is observable need an observer after both writers
+    progs2 += [(["P"], ["P", "G", "G"]), (["P", "G"], ["P", "G"]), (["S"], ["P", "G", "G"]), (["P", "G"], ["S", "G"])]
+    n = Q(70, 400)
+    for i, (a, b) in enumerate(progs2):
+        for pre in ((), ((k, "old"),)):
+            if pre and i % 2:
+                continue
+            progs = ([dict(ops2[x]) for x in a], [dict(ops2[x]) for x in b])
+            fam = "plain:%s||%s%s" % ("".join(a), "".join(b), ":pre" if pre else "")
+            jobs.append(conc_job("C04-%d-%s" % (i, "pre" if pre else "e"), fam, plainf, progs, dfs(n, Q(3, None)), prefill=pre, cfg_extra={"key": k}))
+    # three participants, one operation each
+    for i, tri in enumerate([("S", "P", "G"), ("P", "P", "G"), ("S", "S", "G"), ("P", "T", "G"), ("S", "P", "T")]):
+        progs = tuple([dict(ops2[x])] for x in tri)
+        jobs.append(conc_job("C04-3p-%d" % i, "plain:3p:%s" % "".join(tri), plainf, progs, rnd(Q(80, 1500), seed() + i), cfg_extra={"key": k}))
+    # ensure (stacked cache with a plain writer and no read-only level)
+    for i, (a, b) in enumerate([([E(k)], [E(k)]), ([E(k)], [S(k), G(k)]), ([E(k)], [P(k), G(k)]), ([E(k), G(k)], [E(k)]), ([E(k)], [G(k), T(k)])]):
+        jobs.append(conc_job("C04-ens-%d" % i, "stack:%s||%s" % (prog_name(a), prog_name(b)), stackf, (a, b), dfs(Q(120, 1200), Q(3, None)), cfg_extra={"key": k}))
+    jobs.append(conc_job("C04-ens-3p", "stack:3p:ensure", stackf, ([E(k)], [E(k)], [E(k)]), rnd(Q(100, 1500), seed() + 77), cfg_extra={"key": k}))
+    # step form of the register refinement on the same executions
+    st0 = trace_check(work, out, jobs, ["PutNeverReplaces", "DirValid"], tag="c04")
+    tfiles = st0["files"]
+    res = validate_traces(work, "TraceLin", tfiles, {"monitors": []}, tag="c04l")
+    byjob = {j["id"]: j for j in jobs}
+    nops = 0
+    nruns = 0
+    for r in res:
+        for v in r["verdicts"]:
+            if "ops" in v and isinstance(v["ops"], int):
+                nops += v["ops"]
+                nruns += 1
+            if v.get("viol"):
+                job = byjob.get(v["job"], {})
+                evs = find_run(tfiles, v["job"], v["run"]) or []
+                from pipeline import explicit_job
+                out.report("%s@%s" % (v["viol"][0][1], job.get("fam")),
+                           dict(property="C04", monitor=v["viol"][0][1], spec="TraceLin", monitors=[], job=explicit_job(job, evs) if evs else job,
+                                history=v.get("ops"), trace=slim_events(evs, 300)))
+    # conformance of the same executions to Kismet.tla, and the design-level refinement
+    from pipeline import conformance
+    conf = conformance(work, tfiles, tag="c04k")
+    for d in conf["drifts"][:5]:
+        print("MODEL-DRIFT job=%s run=%s seq=%s at %s: %s" % (d["job"], d["run"], d.get("seq"), d.get("pcl"), d.get("why")), flush=True)
+    design = design_runs(work, out, Q(["MCplain2q", "MCplain2"], ["MCplain2q", "MCplain2", "MCadv"]))
+    _, nev = count_runs(tfiles)
+    cov = dict(states=sum(d["states"] for d in design) + sum(r["states"] for r in res) + conf["states"],
+               transitions=sum(d["transitions"] for d in design) + nev,
+               traces_validated_against_impl=nruns,
+               samples=[dict(job=j["id"], fam=j["fam"]) for j in jobs[:3]],
+               rule="histories of 2 participants x 1-2 operations (all program pairs with a writer and an observer, quick: seeded 26) and 3 x 1 from "
+                    "{set, put, get, touch} on one key of a plain directory with eviction out of play, plus ensure on a stacked cache; schedules explored by DFS "
+                    "over system-call decision points (preemption bound %s) / seeded random; every history searched for a linearization against Register.tla "
+                    "(ensure = composite get;put;get); design level: StepRegister / StepGetLin refinement properties of Kismet.tla" % Q(3, "none"),
+               histories=nruns, operations=nops, model_conformant=(len(conf["drifts"]) == 0), ops_conforming_to_Kismet_tla=conf["ops"],
+               design_level=[dict(cfg=d["cfg"], states=d["states"], transitions=d["transitions"], ok=d["ok"], wall_s=round(d["wall"], 1)) for d in design])
+    return finish("C04", out, t0, "model_checking", cov, BASE_ASSUME)
+
+
+def seq_history(rng, keys, nops, nhandles, stacked, apis=("set", "put", "get", "touch")):
+    prog = []
+    for i in range(nops):
+        api = rng.choice(apis if not stacked else apis + ("ensure",))
+        k, (h, s2) = rng.choice(keys)
+        o = op(api, k, hash=str(h), sec=str(s2), h=rng.randrange(nhandles))
+        if api in ("set", "put", "ensure"):
+            o["val"] = "v%d" % i
+        prog.append(o)
+    return prog
+
+
+def seq_fronts(rng, thorough):
+    """(name, cache, shard count, key set with hashes, shardcap)"""
+    out = []
+    plain_keys = [("k%d" % i, (i, i + 100)) for i in range(6)]
+    for cap in (1, 2, 4, 9, 1000000):
+        out.append(("plain-cap%d" % cap, plain("W", cap), 0, plain_keys, None, cap))
+    for n in ((2, 3, 8) if not thorough else (2, 3, 4, 5, 8)):
+        for total in (n, 2 * n, 3 * n + 1, 1000000):
+            keys = []
+            # colliding, swapped, coinciding (fix-up) and spread placements
+            a, b = rng.randrange(n), rng.randrange(n)
+            if a == b:
+                b = (a + 1) % n
+            for i, (x, y) in enumerate([(a, b), (a, b), (b, a), (rng.randrange(n), None), (rng.randrange(n), None), (a, None)]):
+                for _ in range(2000):
+                    h, s2 = rng.getrandbits(64), rng.getrandbits(64)
+                    ids = shard_ids(h, s2, n)
+                    if ids[0] == x and (y is None or ids[1] == y):
+                        keys.append(("k%d" % i, (h, s2)))
+                        break
+            shardcap = (total + n - 1) // n
+            out.append(("sharded%d-cap%d" % (n, total), sharded("W", n, total), n, keys, shardcap, total))
+    for cap in (2, 1000000):
+        out.append(("stack-plain-cap%d" % cap, stack(plain("W", cap), [plain("R1")], "none"), 0, plain_keys, None, cap))
+    out.append(("stack-sharded", stack(sharded("W", 2, 4), [], "none"), 2, [("k%d" % i, (2 * i + 1, 2 * i + 2)) for i in range(5)], 2, 4))
+    return out
+
+
+def check_C11(work):
+    t0 = time.time()
+    out = Outcome("C11")
+    rng = random.Random(seed())
+    jobs = []
+    nh = Q(2, 8)
+    for fname, cache, n, keys, shardcap, cap in seq_fronts(rng, TIER == "thorough"):
+        for r in range(nh):
+            nops = rng.choice(Q([12, 25, 40], [40, 100, 200]))
+            nhandles = rng.choice([1, 2, 3])
+            stacked = cache["kind"] == "stack"
+            prog = seq_history(rng, keys, nops, nhandles, stacked)
+            draws = [str(rng.getrandbits(64) | 1) for _ in range(nops * 3)]
+            p1 = part(1, cache, with_vals(prog, 1), str(rng.getrandbits(64) | 1), draws=draws, shard_script=[rng.randrange(64) for _ in range(nops * 2)],
+                      handles=[cache] * nhandles)
+            cfg = {"roots": roots_of(cache), "front": cache["kind"], "cap": cap, "seq": True}
+            if shardcap:
+                cfg["shardcap"] = shardcap
+            if stacked:
+                cfg["autosync"] = True
+            jobs.append(job("C11-%s-%d" % (fname, r), [seq_stage(p1)], cfg, None, fam=fname))
+    mons = ["SeqMapOK", "OneCopy", "UnexplainedLoss", "SrcConsumed", "PruneOK", "DirValid", "HandleContentOK", "RemovalOK"]
+    st = trace_check(work, out, jobs, mons, tag="c11")
+    design = design_runs(work, out, Q(["MCsc4"], ["MCsc4", "MCclean"]))
+    cov = coverage_mc(st, design, "seeded sequential histories (12-40 operations quick, up to 200 thorough) of set/put/get/touch(/ensure) over <= 6 keys through 1-3 independent "
+                      "handles on the same directories; plain (capacities 1, 2, 4, 9, huge), sharded (2-8 shards, total capacity n .. 3n+1 and huge; key hashes chosen to "
+                      "collide, swap, coincide and spread), stacked; seeded trigger draws and random-shard choices (hooks); after every operation: SeqMapOK (lookup = "
+                      "latest set else first put since absent), OneCopy, UnexplainedLoss (disappearance only in an operation that ran maintenance), PruneOK "
+                      "(every maintenance is a Second Chance outcome at that directory's capacity), SrcConsumed", dict(jobs=len(jobs), monitors=mons))
+    return finish("C11", out, t0, "model_checking", cov, BASE_ASSUME)
+
+
+def check_C09(work):
+    t0 = time.time()
+    out = Outcome("C09")
+    rng = random.Random(seed())
+    jobs = []
+    emuls = [("relatime", {}), ("noatime", {"noatime": True}), ("strict", {"strictatime": True})]
+    grans = [0, 1, 2]
+    fronts_ = [("plain", plain("W", 1000000), [("k%d" % i, (i, i + 7)) for i in range(3)]),
+               ("sharded", sharded("W", 2, 1000000), [("k%d" % i, (2 * i + 1, 2 * i + 2)) for i in range(3)]),
+               ("stack", stack(plain("W", 1000000), [], "none"), [("k%d" % i, (i, i + 7)) for i in range(3)])]
+    nseq = Q(5, 35)
+    for ename, em in emuls:
+        for g in grans:
+            for fname, cache, keys in fronts_:
+                for r in range(nseq):
+                    nops = rng.choice([6, 9, 12])
+                    stacked = cache["kind"] == "stack"
+                    prog = seq_history(rng, keys, nops, 1, stacked)
+                    emul = dict(em)
+                    if g:
+                        emul["gran"] = g
+                    cfg = {"roots": roots_of(cache), "front": cache["kind"], "cap": 1000000, "seq": True}
+                    j = job("C09-%s-g%d-%s-%d" % (ename, g, fname, r), [seq_stage(part(1, cache, with_vals(prog, 1), NEVER))], cfg, None,
+                            fam="%s:g%d:%s" % (ename, g, fname))
+                    if emul:
+                        j["emul"] = emul
+                    jobs.append(j)
+    # short exhaustive sequences on one key (every pair / triple of operations), default policy and no-atime
+    for ename, em in (("relatime", {}), ("noatime", {"noatime": True})):
+        for g in (0, 2):
+            for seqn in itertools.product(("set", "put", "get", "touch"), repeat=3):
+                prog = [op(a, "k0", hash="1", sec="2") for a in seqn]
+                emul = dict(em)
+                if g:
+                    emul["gran"] = g
+                cfg = {"roots": [root("W")], "front": "plain", "cap": 1000000, "seq": True}
+                j = job("C09x-%s-g%d-%s" % (ename, g, "".join(a[0] for a in seqn)), [seq_stage(part(1, plain("W", 1000000), with_vals(prog, 1), NEVER))], cfg, None,
+                        fam="%s:g%d:exh" % (ename, g))
+                if emul:
+                    j["emul"] = emul
+                jobs.append(j)
+    mons = ["ReadMarks", "FreshOnWrite", "SeqMapOK", "DirValid", "Immutable"]
+    st = trace_check(work, out, jobs, mons, tag="c09")
+    design = design_runs(work, out, Q(["MCatime_relatime_3", "MCatime_noatime_3"], ["MCatime_relatime_3", "MCatime_noatime_3", "MCatime_strict_1", "MCatime_relatime_1", "MCatime_noatime_1", "MCatime_strict_3"]))
+    cov = coverage_mc(st, design, "operation sequences (seeded, and all 64 triples of {set, put, get, touch} on one key) on plain / sharded / stacked front ends, issued back to back, "
+                      "under tracer emulations of the access-time policy {kernel relatime, no-atime (O_NOATIME forced on every open), strict atime} x stored timestamp "
+                      "granularity {native, 1 s, 2 s}; after every operation ReadMarks (marked, mtime and content unchanged) and FreshOnWrite (newest mtime of its "
+                      "directory, not marked)", dict(jobs=len(jobs), monitors=mons))
+    return finish("C09", out, t0, "model_checking", cov, BASE_ASSUME + ["emulation is of stored timestamps and O_NOATIME, not of a network filesystem's client cache"])
+
+
+def check_C20(work):
+    t0 = time.time()
+    out = Outcome("C20")
+    sizes = Q([0, 10, 100, 2000], [0, 10, 100, 2000, 5000])
+    k = "k"
+    H = {"hash": "1", "sec": "2"}
+    jobs = []
+
+    def seqops(hidx, stacked):
+        ops = [("get-miss", op("get", k, **H)), ("touch-miss", op("touch", k, **H)), ("put-insert", op("put", k, **H)),
+               ("put-existing", op("put", k, **H)), ("set-overwrite", op("set", k, **H)), ("get-hit", op("get", k, **H)),
+               ("touch-hit", op("touch", k, **H)), ("set-fresh", op("set", "k2", **{"hash": "3", "sec": "4"}))]
+        if stacked:
+            ops += [("ensure-hit", op("ensure", k, **H)), ("ensure-miss", op("ensure", "k9", **H)), ("put_tf", op("put_tf", "k8", **H))]
+        return [dict(o, h=hidx, grp=g, size=sizes[hidx]) for g, o in ops]
+
+    fronts_ = [("plain", 0, "none"), ("sharded", 0, "none"), ("stack1", 0, "none"), ("stack2", 1, "none"), ("stack3", 2, "none"), ("stack3eq", 2, "eq")]
+    for fname, nreaders, ck in fronts_:
+        world, handles, prog = [], [], []
+        for i, sz in enumerate(sizes):
+            d = "D%d" % sz
+            fill = d + "/.kismet_0000" if fname == "sharded" else d
+            world.append(op("mkfiles", dir="@TOP@/" + fill, count=sz, prefix="e"))
+            world.append(op("mkdir", path="@TOP@/" + fill + "/.kismet_temp"))
+            if fname == "sharded":
+                world.append(op("mkdir", path="@TOP@/" + d + "/.kismet_0001/.kismet_temp"))
+            # every size gets its own read-only levels, in the same initial state
+            readers = [plain("R%d_%d" % (r, sz)) for r in range(1, nreaders + 1)]
+            for r in readers:
+                world.append(op("mkfile", path=r["dir"] + "/" + k, key=k, val="same", chunks=1, w=1, mode=0o444, mt_ago=500.0, at_ago=620.0))
+            if fname == "plain":
+                handles.append(plain(d, 10000000))
+            elif fname == "sharded":
+                handles.append(sharded(d, 2, 20000000))
+            else:
+                handles.append(stack(plain(d, 10000000), readers, ck))
+            ops_ = seqops(i, fname.startswith("stack"))
+            for o in ops_:
+                if o.get("key") == k and o["api"] in ("set", "put", "ensure"):
+                    o["val"] = "same"
+            prog += ops_
+        stages = [seq_stage(part(9, plain("SRC/none"), world, NEVER)),
+                  seq_stage(dict(part(1, handles[0], with_vals(prog, 1), NEVER), handles=handles))]
+        j = job("C20-%s" % fname, stages, {"front": fname, "checker": ck}, None, fam=fname)
+        j["snap"] = "none"
+        jobs.append(j)
+    tfiles = run_tracer(work, jobs, tag="c20")
+    res = validate_traces(work, "TraceRes", tfiles, {"monitors": []}, tag="c20")
+    nops = groups = 0
+    byjob = {j["id"]: j for j in jobs}
+    for r in res:
+        for v in r["verdicts"]:
+            nops += v.get("ops", 0)
+            groups += v.get("groups", 0)
+            if v.get("viol"):
+                for mon in sorted(set(m for _, m in v["viol"])):
+                    out.report("%s@%s" % (mon, byjob.get(v["job"], {}).get("fam")), dict(property="C20", job=byjob.get(v["job"]), viol=v["viol"][:20]))
+    nruns, nev = count_runs(tfiles)
+    cov = dict(states=sum(r["states"] for r in res), transitions=nev, traces_validated_against_impl=nruns,
+               samples=[dict(front=j["fam"], sizes=sizes) for j in jobs[:2]],
+               rule="each operation (get/touch miss and hit, put insert/existing, set overwrite/fresh, ensure hit/miss, put_temp_file) x front end "
+                    "{plain, sharded, stack depth 1-3, stack depth 3 with checker} against directories pre-filled with %s entries, maintenance never firing: "
+                    "identical library-phase call-count vectors across sizes, FdBound, NoResidue (+ /proc/self/fd cross-check), TwoOpensPerDir, NoLocks" % sizes,
+               operations_judged=nops, operation_groups=groups, sizes=sizes)
+    return finish("C20", out, t0, "model_checking", cov, BASE_ASSUME + ["counts calls, not bytes or time"])
+
+
 def check_C06(work):
     t0 = time.time()
     out = Outcome("C06")
@@ -1132,6 +1401,6 @@ def check_C06(work):
     return finish("C06", out, t0, "model_checking", cov, BASE_ASSUME)
 
 
-CHECKS = {"C01": check_C01, "C02": check_C02, "C03": check_C03, "C06": check_C06, "C08": check_C08, "C10": check_C10, "C12": check_C12, "C13": check_C13, "C14": check_C14, "C15": check_C15, "C19": check_C19, "C05": check_C05, "C07": check_C07, "C16": check_C16, "C17": check_C17, "C18": check_C18}
+CHECKS = {"C01": check_C01, "C02": check_C02, "C03": check_C03, "C04": check_C04, "C06": check_C06, "C08": check_C08, "C09": check_C09, "C10": check_C10, "C11": check_C11, "C12": check_C12, "C20": check_C20, "C13": check_C13, "C14": check_C14, "C15": check_C15, "C19": check_C19, "C05": check_C05, "C07": check_C07, "C16": check_C16, "C17": check_C17, "C18": check_C18}
 
 NOT_APPLICABLE = {}
